@@ -2108,3 +2108,25 @@ func rangeOverLiteral(ia *ssa.IndexAddr, at *ssa.BasicBlock) (rows []ssa.Value, 
 	}
 	return rows, hdr, true
 }
+
+// onEveryPath: the instruction runs on every path through its function that
+// ends in a return: its block stands under no test, and no return can be
+// reached without passing it (an early `return` in front of it is a test
+// too, although it guards no block that dominance would show).
+func onEveryPath(in ssa.Instruction) bool {
+	b := in.Block()
+	if b == nil || len(guardsOf(b)) != 0 {
+		return false
+	}
+	f := b.Parent()
+	for _, ret := range returnsOf(f) {
+		rb := ret.Block()
+		if rb == b {
+			continue
+		}
+		if !b.Dominates(rb) {
+			return false
+		}
+	}
+	return true
+}
